@@ -263,7 +263,7 @@ func (x *Exec) ghostMapUpdate(n *node, mt *types.Map, mv ssa.Value, m, k *Term, 
 	key := "ghost." + tk
 	cur := x.objGet(n.st, key, IntS, sc.T)
 	internal := x.objGet(n.st, "ghost.internal", BoolS, sc.T)
-	x.Oblige("token", "store into "+x.dynKeyAny(mv)+" needs the token of the stored value", fmt.Sprint(x.curPos), x.curPos, n.guard, Or(Eq(cur, IntLit(2)), internal), nil)
+	x.Oblige("token", "store into "+x.dynKeyAny(mv)+" needs the token of the stored value", fmt.Sprint(x.curPos), x.curPos, n.guard, Or(Eq(cur, IntLit(2)), internal), x.P.Spec.FieldProps[x.dynKeyAny(mv)])
 	n.st.noRecord++
 	x.objSet(n.st, key, sc.T, Ite(internal, cur, IntLit(1)))
 	if slot != "" {
@@ -333,6 +333,7 @@ func (x *Exec) ghostSpawn(fc *funcCtx, n *node, ins ssa.Instruction, c *ssa.Call
 	for _, a := range c.Args {
 		args = append(args, x.operandIn(n.env, a, n.st))
 	}
+	x.atCallAssertions(fc, n, ins, c, args)
 	st := n.st.Clone()
 	st.Locks = map[string]bool{}
 	env := x.specEnvFor(fs, callee, args, st, n.guard)
@@ -343,7 +344,7 @@ func (x *Exec) ghostSpawn(fc *funcCtx, n *node, ins ssa.Instruction, c *ssa.Call
 		}
 		g := env.EvalBool(cl.Expr)
 		x.reportSpecErrors(env, name, cl)
-		x.Oblige("pre", clauseLabel(cl)+" @go "+name, fmt.Sprint(ins.Pos()), ins.Pos(), n.guard, g, nil)
+		x.Oblige("pre", clauseLabel(cl)+" @go "+name, fmt.Sprint(ins.Pos()), ins.Pos(), n.guard, g, cl.Props)
 	}
 }
 
